@@ -10,6 +10,35 @@ from .expr import (is_int, is_boolv, is_bv, is_float, as_bool, to_int, simp_bool
 NORMAL, BREAK, CONTINUE, RETURN, RAISE = "normal", "break", "continue", "return", "raise"
 
 
+def store_patterns(stmts):
+    """array name -> list of index-expression lists of every direct subscript store (None if some store is not a plain
+    full index: slices, attribute bases, ...)"""
+    pats = {}
+    for s in stmts:
+        for n in ast.walk(s):
+            tg = []
+            if isinstance(n, ast.Assign):
+                tg = n.targets
+            elif isinstance(n, (ast.AugAssign, ast.AnnAssign)):
+                tg = [n.target]
+            for t in tg:
+                for m in ast.walk(t):
+                    if isinstance(m, ast.Subscript) and isinstance(m.ctx, ast.Store):
+                        if isinstance(m.value, ast.Name):
+                            idx = m.slice.elts if isinstance(m.slice, ast.Tuple) else [m.slice]
+                            if any(isinstance(i, ast.Slice) for i in idx):
+                                pats[m.value.id] = None
+                            elif pats.get(m.value.id, []) is not None:
+                                pats.setdefault(m.value.id, []).append(idx)
+                        else:
+                            b = m
+                            while isinstance(b, (ast.Subscript, ast.Attribute)):
+                                b = b.value
+                            if isinstance(b, ast.Name):
+                                pats[b.id] = None
+    return pats
+
+
 def assigned_names(stmts):
     """names (incl. loop targets) possibly assigned, and base names of subscript/attribute stores, in a statement list"""
     names, stores, calls = set(), set(), []
@@ -425,18 +454,24 @@ class StmtMixin:
             if nm in hv.vars:
                 hv.vars[nm] = self.havoc_value(nm, hv.vars[nm], hv)
         cells = set()
+        c = fresh_int("it_" + tname)
+        zs = lambda v: z3.IntVal(v) if isinstance(v, int) else v
+        pats = store_patterns(s.body)
+        called_with = self.arrays_passed_to_assigning_calls(calls, hv)
         for nm in sorted(stores):
             v = hv.vars.get(nm)
             if isinstance(v, SArr):
                 cells.add(v.cell)
+                before = hv.heap[v.cell]
                 havoc_cell(hv, v, nm)
+                aliased = any(o != nm and isinstance(hv.vars.get(o), SArr) and hv.vars[o].cell == v.cell for o in stores)
+                if nm not in called_with and not aliased:
+                    self.frame_inference(hv, st, v, before, pats.get(nm), set(names) | set(stores), tname, c, start, step)
             elif isinstance(v, tuple):
                 for x in v:
                     if isinstance(x, SArr):
                         havoc_cell(hv, x, nm)
         self.havoc_for_calls(calls, hv)
-        c = fresh_int("it_" + tname)
-        zs = lambda v: z3.IntVal(v) if isinstance(v, int) else v
         if step > 0:
             hv.assume(zs(c) >= zs(start))
             if step != 1:
@@ -498,6 +533,64 @@ class StmtMixin:
         if self.feasible(ex):
             out.append((ex, NORMAL, None))
         return out
+
+    def arrays_passed_to_assigning_calls(self, calls, st):
+        out = set()
+        for cnode in calls:
+            tgt = self.static_callee(cnode, st)
+            cc = (self.db.contracts.get(tgt) or self.db.assumed.get(tgt)) if tgt else None
+            if cc is not None and cc.assigns:
+                for pname in cc.assigns:
+                    if pname in cc.params:
+                        i = cc.params.index(pname)
+                        if i < len(cnode.args) and isinstance(cnode.args[i], ast.Name):
+                            out.add(cnode.args[i].id)
+        return out
+
+    def frame_inference(self, hv, pre, arr, before, pats, assigned, tname, c, start, step):
+        """cells the loop body cannot write keep their value (derived syntactically from the store patterns):
+        an axis whose index is a loop-invariant expression -> other positions on that axis are preserved;
+        an axis whose index is this loop's variable -> positions not yet reached are preserved."""
+        if not pats or arr.fixed:
+            return
+        nd = len(arr.shape)
+        if any(len(p) != nd for p in pats):
+            return
+        conds = []
+        q = [z3.Int("f%d!" % k) for k in range(nd)]
+        for k in range(nd):
+            texts = set(ast.unparse(p[k]) for p in pats)
+            if len(texts) != 1:
+                continue
+            e = pats[0][k]
+            used = set(n.id for n in ast.walk(e) if isinstance(n, ast.Name))
+            if isinstance(e, ast.Name) and e.id == tname:
+                if self.proved_quick(pre, (z3.IntVal(start) if isinstance(start, int) else start) >= 0) or (isinstance(start, int) and start >= 0):
+                    conds.append(q[k] >= c if step > 0 else z3.And(q[k] <= c, c >= 0))
+                continue
+            if used & (set(assigned) | {tname}):
+                continue
+            try:
+                val = to_int(self.eval_spec(e, pre))
+            except Unsupported:
+                continue
+            n_k = arr.shape[k]
+            valz = z3.IntVal(val) if isinstance(val, int) else val
+            nk = z3.IntVal(n_k) if isinstance(n_k, int) else n_k
+            norm = z3.If(valz < 0, valz + nk, valz)
+            conds.append(q[k] != norm)
+        if not conds:
+            return
+        cond = z3.Or(*conds)
+        after = hv.heap[arr.cell]
+        if arr.dt == "f":
+            hv.assume(z3.ForAll(q, z3.Implies(cond, z3.Select(after[0], *q) == z3.Select(before[0], *q)),
+                                patterns=[z3.Select(after[0], *q)]))
+            hv.assume(z3.ForAll(q, z3.Implies(cond, z3.Select(after[1], *q) == z3.Select(before[1], *q)),
+                                patterns=[z3.Select(after[1], *q)]))
+        else:
+            hv.assume(z3.ForAll(q, z3.Implies(cond, z3.Select(after, *q) == z3.Select(before, *q)),
+                                patterns=[z3.Select(after, *q)]))
 
     def havoc_for_calls(self, calls, st):
         """cells that callee contracts declare as assigned are havocked too"""
